@@ -5,6 +5,7 @@ from vf import common, sphere as sp, faceplane as fp, geo
 PID = 'C13'
 LEVEL = 'exploration'
 TOL = 1e-11
+SEEN = set()       # per worker task: distinct inputs already counted as non-trivial (warm repeats are not counted twice)
 
 
 def _lib():
@@ -66,7 +67,10 @@ def check_dir(acc, proj, v, stratum):
         if err > TOL:
             acc.violation(k + ':roundtrip', f'direction {v!r} on face {f} ({role}): project/unproject moves it by {err:.3g} rad (limit 1e-11)', case)
             continue
-        acc.n['nontrivial'] += 1
+        key = (v, f)
+        if key not in SEEN:
+            SEEN.add(key)
+            acc.n['nontrivial'] += 1
         acc.outcome((f, round(q[0], 2), round(q[1], 2)))
 
 
@@ -86,7 +90,10 @@ def check_plane(acc, proj, x, y, f, stratum):
     if not (err <= TOL):
         acc.violation(k + ':roundtrip', f'face point {(x, y)!r} on face {f}: unproject/project returns {q!r} (error {err:.3g}, limit 1e-11)', case)
         return
-    acc.n['nontrivial'] += 1
+    key = (x, y, f)
+    if key not in SEEN:
+        SEEN.add(key)
+        acc.n['nontrivial'] += 1
 
 
 def fib_dirs(n, lo, hi):
@@ -98,6 +105,7 @@ def fib_dirs(n, lo, hi):
 
 
 def work_dirs(task):
+    SEEN.clear()
     Proj, _ = _lib()
     proj = Proj()                      # cold caches for this task
     acc = common.Acc()
@@ -183,6 +191,7 @@ def plane_points(nazi):
 
 
 def work_plane(task):
+    SEEN.clear()
     Proj, _ = _lib()
     proj = Proj()
     acc = common.Acc()
@@ -208,7 +217,7 @@ def run(tier, t0):
     acc.sample({'face point': [fp.D_EDGE + 1e-9, 0.1], 'face': 7, 'check': '|forward(inverse(p)) - p| <= 1e-11 (just beyond an edge: reflected triangle)'})
     rule = (f'sphere->plane->sphere: Fibonacci lattice of {n} directions and log-scaled neighbourhoods (1e-13..1e-1 rad) of the 62 frame points, each on its nearest and (when unambiguous) its edge-adjacent face; '
             'plane->sphere->plane: for all 12 faces a polar lattice over the pentagon and the five mirror triangles plus points 1e-12..1e-3 on both sides of every seam ray, edge line, vertex, the centre and the mirror apexes; '
-            'each task uses a fresh projection object (cold caches) and repeats a fifth of its points in reverse order (warm); non-trivial = round trips within 1e-11')
+            'each task uses a fresh projection object (cold caches) and repeats a fifth of its points in reverse order (warm); non-trivial = distinct inputs whose round trip is within 1e-11 (the warm repeats are evaluated but not counted again)')
     return common.finish(PID, LEVEL, tier, acc, t0, rule, [
         'the adjacent face is taken as the second-nearest face centre; skipped when second and third nearest differ by < 1e-9 in cosine (at a face vertex the third face is outside the statement)',
         'angles by atan2(|a x b|, a.b); spherical <-> cartesian conversions of the oracle are its own (atan2 colatitude)',
